@@ -390,6 +390,18 @@ func (r *Reconciler) reconcileAbort(ctx context.Context, proposal *configapi.Pro
 			return controller.Result{}, nil
 		}
 
+		// Resume: both cursors have already passed this proposal (the write of the ABORTED state below was lost,
+		// or refused by a concurrent write of the proposal): only the state remains to be recorded
+		if config.Status.Committed.Index >= proposal.TransactionIndex &&
+			config.Status.Applied.Index >= proposal.TransactionIndex {
+			proposal.Status.Phases.Abort.End = getCurrentTimestamp()
+			proposal.Status.Phases.Abort.State = configapi.ProposalAbortPhase_ABORTED
+			if err := r.updateProposalStatus(ctx, proposal); err != nil {
+				return controller.Result{}, err
+			}
+			return controller.Result{}, nil
+		}
+
 		if config.Status.Committed.Index == proposal.Status.PrevIndex &&
 			config.Status.Applied.Index == proposal.Status.PrevIndex {
 			config.Status.Committed.Index = proposal.TransactionIndex
